@@ -16,7 +16,7 @@ IMPORTS = 'From VT Require Import Check.C14Check.'
 def server_cases(chk, n):
     rng = chk.rng
     cases, meta = [], []
-    k = server_hist.Knobs(n_ops=28, refuse=0.2, actions=0.3, raise_p=0.1, catchall=0.3)
+    k = server_hist.Knobs(n_ops=28, refuse=0.2, actions=0.3, raise_p=0.1, catchall=0.3, nested_ack=0.25)
     k.w.update({'junk': 1.5, 'binary': 1.5, 'emit_cb': 2, 'ack': 2, 'session': 2})
     directed = directed_server_histories(rng)
     for i in range(n + len(directed)):
@@ -27,8 +27,9 @@ def server_cases(chk, n):
         except Exception as e:
             chk.broken_obligation('driver error (server pair, history %d): %r' % (i, e))
             continue
-        ops_s = clist([srv.c_op(o, t) for o, (_, t) in zip(ops, rs)])
-        ops_a = clist([srv.c_op(o, t) for o, (_, t) in zip(ops, ra)])
+        xops = srvcommon.expand(ops)
+        ops_s = clist([srv.c_op(o, t) for o, (_, t) in zip(xops, rs)])
+        ops_a = clist([srv.c_op(o, t) for o, (_, t) in zip(xops, ra)])
         obs_s = clist([clist([srv.c_eff(e) for e in effs]) for effs, _ in rs])
         obs_a = clist([clist([srv.c_eff(e) for e in effs]) for effs, _ in ra])
         cases.append('(PSrv %s %s %s %s %s %s %s)' % (srv.c_cfg(cfg), ops_s, ops_a, obs_s, obs_a,
